@@ -10,7 +10,7 @@ only = sys.argv[2:]
 for q, lst in REGISTRY.items():
     for k in lst:
         if only and not any(o in k.ident for o in only): continue
-        if not getattr(k,'verify_body',True) or getattr(k,'bounded_only',False): continue
+        if not getattr(k,'verify_body',True) or getattr(k,'bounded_only',False) or (getattr(k,'thorough_only',False) and '-t' not in sys.argv): continue
         r = verify(k, repo)
         print("==", k.ident, "paths", r.n_paths, "aux", r.n_aux, "infeasible", r.n_infeasible, "obls", len(r.obligations), f"{r.seconds:.2f}s", "ERROR: "+r.error if r.error else "")
         discharge_all(r.obligations)
